@@ -30,6 +30,11 @@ class Workdir:
         p = os.path.join(self.path, name)
         with open(p, 'w') as fh:
             fh.write(text)
+        dump = os.environ.get('VERIF_DUMP_MC')      # keep a copy of every generated MC module / config (documentation)
+        if dump and (name.endswith('.tla') or name.endswith('.cfg')) and len(text) < 200000:
+            os.makedirs(dump, exist_ok=True)
+            with open(os.path.join(dump, name), 'w') as fh:
+                fh.write(text)
         return p
 
     def sub(self, name):
